@@ -10,12 +10,14 @@ fn profile(thorough: bool) -> Profile {
         rekey: 14,
         prune: 10,
         del_attr: 5,
+        disable: 2,
         del_dim: 1,
         add_attr: 2,
         update: 8,
         keygen: 9,
         refresh: 14,
         encaps: 5,
+        encaps_wide: 3,
         encaps_for: 14,
         check: 6,
         roundtrip: 2,
